@@ -81,7 +81,7 @@ def gen_stress(rng):
             s["mod"] = rng.randrange(nmod)
             s["dom"] = rng.choice(["comb", "comb", "sync"])
             s["src"] = rng.sample(range(i), rng.randrange(1, min(3, i) + 1))
-            s["op"] = rng.choice(["copy", "add", "xor", "slice", "cat"])
+            s["op"] = rng.choice(["copy", "add", "xor", "slice", "cat", "catcont"])
             if w >= 2 and rng.random() < 0.3:
                 lo = rng.randrange(0, w)
                 s["lo"], s["hi"] = lo, rng.randrange(lo + 1, w + 1)
@@ -101,13 +101,15 @@ def gen_stress(rng):
         for j in range(rng.randrange(0, 5)):
             kind = rng.choice(["int", "neg", "big", "str", "float", "const", "sconst"])
             params[f"P{j}"] = {"int": ["int", rng.randrange(0, 1000)], "neg": ["int", -rng.randrange(1, 1000)],
-                               "big": ["int", rng.choice([2**31 - 1, 2**31, 2**40 + 5, -2**35])], "str": ["str", rng.choice(STRS)],
+                               "big": ["int", rng.choice([2**31 - 1, 2**31, 2**32 - 1, 2**32, 2**40 + 5, -2**35, -2**31, -2**31 - 1, -2**31 - 5,
+                                                        -(10**12), -2**63 - 1, 2**64 + 3, -(2**40 + 5)])], "str": ["str", rng.choice(STRS)],
                                "float": ["float", rng.choice([1.5, -0.25, 1e10, 3.0])],
                                "const": ["const", rng.getrandbits(5), 5, False],
                                "sconst": ["const", -rng.randrange(1, 8), 4, True]}[kind]
         attrs = {}
         for j in range(rng.randrange(0, 3)):
-            attrs[f"A{j}"] = rng.choice([["str", rng.choice(STRS)], ["int", rng.randrange(0, 50)]])
+            attrs[f"A{j}"] = rng.choice([["str", rng.choice(STRS)], ["int", rng.randrange(0, 50)],
+                                         ["int", rng.choice([-1, -7, 2**31, -2**31 - 5, -(10**12), 2**40 + 5])]])
         ins = []
         for j in range(rng.randrange(0, 3)):
             if rng.random() < 0.3:
@@ -191,6 +193,11 @@ def build_stress(d):
             e = srcs[0] ^ (srcs[-1])
         elif op == "slice":
             e = srcs[0][:max(1, len(srcs[0]) // 2)] if len(srcs[0]) else srcs[0]
+        elif op == "catcont" and len(srcs) > 1 and len(srcs[0]) and len(srcs[1]) > len(srcs[0]):
+            # the second piece continues the bit numbering of the first on another wire
+            e = Cat(srcs[0], srcs[1][len(srcs[0]):])
+        elif op == "catcont" and len(srcs) > 1 and len(srcs[0]) > 1 and len(srcs[1]) > 1:
+            e = Cat(srcs[0][:1], srcs[1][1:])
         else:
             e = Cat(*srcs)
         tgt = sigs[i][s["lo"]:s["hi"]] if (s["lo"], s["hi"]) != (0, s["w"]) else sigs[i]
